@@ -1,4 +1,5 @@
 import GradysProofs.Lemmas.Dispatch
+import GradysProofs.Lemmas.DispatchNested
 /-
   C15 — dispatcher: handlers run newest-first, then the protocol's own method, honouring INTERRUPT
   for timer / packet / telemetry only; unregistration is exact; (un)registration from inside a
@@ -220,6 +221,128 @@ example :
     let s := (run beh DState.init [.create 0, .create 1, .register 0 .packet 1]).1
     ((dispatch beh s 1 .packet).2.map (·.entry)) = [.own] ∧
     ((dispatch beh s 0 .packet).2.map (·.entry)) = [.h 1, .own] := by
+  decide
+
+/-! ### callees that call the protocol's methods themselves (nested dispatch), dispatcher asked for late -/
+
+/-- **Order and INTERRUPT at every nesting level.**  `dispatchN` lets every callee (handler or own method),
+    on each of its invocations, perform requests, ask for the dispatcher, and call any method of its
+    protocol again (`NBeh`, arbitrary).  In EVERY state `s` — in particular in the states in which the nested
+    calls begin, since a nested call is `dispatchN` at the state reached so far — a call of method `k`
+    invokes a prefix of the chain as it stood when THAT call began: never nothing, the whole chain for
+    initialize / finish, and for timer / packet / telemetry exactly up to the first INTERRUPT.  Nothing a
+    nested call or a request does in between makes the running call skip or repeat a chain position. -/
+theorem C15_nested_order (beh : NBeh) (fuel : Nat) (s : NState) (p : Nat) (k : Kind) :
+    let chain := s.d.reg.chain p k
+    let calls := (dispatchN beh (fuel + 1) s p k).2
+    calls.map (·.entry) <+: chain ∧ (chain ≠ [] → calls ≠ []) ∧
+    (k.interruptible = false → calls.map (·.entry) = chain) ∧
+    (k.interruptible = true → ∃ post, chain = calls.map (·.entry) ++ post ∧
+        (∀ c ∈ calls.dropLast, c.ret ≠ Ret.interrupt) ∧
+        (post ≠ [] → ∃ c, calls.getLast? = some c ∧ c.ret = Ret.interrupt)) := by
+  intro chain calls
+  refine ⟨walk_prefix _ _ _ _, ?_, ?_, ?_⟩
+  · intro hne
+    show (walk _ _ chain s).2 ≠ []
+    cases hch : chain with
+    | nil => exact absurd hch hne
+    | cons e es => exact walk_ne_nil _ _ _ _ _
+  · intro hk
+    show ((walk _ k.interruptible chain s).2.map (·.entry)) = chain
+    rw [hk]
+    exact walk_all _ _ _
+  · intro hk
+    have hc : calls = (walk (invokeN beh (fun s' k' => (dispatchN beh fuel s' p k').1) p k) true chain s).2 := by
+      show (walk _ k.interruptible _ s).2 = _
+      rw [hk]
+    rw [hc]
+    exact walk_stop _ _ _
+
+/-- **Worlds stay well-formed through nested calls.**  From a well-formed world (every chain is
+    `handlers ++ [own method]` with the own method once, and every handler in a chain was registered
+    there), a call with callees of any behaviour and nesting ends in a well-formed world, leaves the
+    wrappers of all other instances untouched, runs the protocol's own method at most once at its own level
+    and invokes only handlers that were registered on that instance for that kind. -/
+theorem C15_nested_invariant (beh : NBeh) (fuel : Nat) (s : NState) (p : Nat) (k : Kind) (hs : DInv s.d) :
+    let d := dispatchN beh fuel s p k
+    DInv d.1.d ∧ (∀ q, q ≠ p → d.1.d.reg q = s.d.reg q) ∧
+    (d.2.map (·.entry)).count Entry.own ≤ 1 ∧
+    (∀ c ∈ d.2, ∀ h, c.entry = Entry.h h → (p, k, h) ∈ s.d.regLog) := by
+  intro d
+  have hpre : d.2.map (·.entry) <+: s.d.reg.chain p k := by
+    cases fuel with
+    | zero => exact List.nil_prefix
+    | succ fuel => exact walk_prefix _ _ _ _
+  have hok : ChainOK (s.d.reg.chain p k) := Registry.chain_ok hs.wf p k
+  refine ⟨dispatchN_dinv beh fuel s p k hs, fun q hq => dispatchN_other beh fuel s k hq, ?_, ?_⟩
+  · have := hpre.sublist.count_le Entry.own
+    rw [chainOK_count_own hok] at this
+    exact this
+  · intro c hc h he
+    have hm : Entry.h h ∈ s.d.reg.chain p k :=
+      hpre.subset (he ▸ List.mem_map_of_mem (f := (·.entry)) hc)
+    cases hr : s.d.reg p with
+    | none => simp [Registry.chain, hr] at hm
+    | some ch =>
+      simp only [Registry.chain, hr] at hm
+      exact hs.log p ch k h hr hm
+
+/-- ... and every world reached by a history of create / register / unregister / calls whose callees nest
+    and ask for the dispatcher late is well-formed: each chain of every wrapped instance still ends with
+    the protocol's own method, exactly once (no second wrapping by a late or repeated request). -/
+theorem C15_nested_history (beh : NBeh) (fuel : Nat) (ops : List Op) (p : Nat) (k : Kind) :
+    let s := (runN beh fuel DState.init ops).1
+    DInv s ∧ (s.reg.chain p k).count Entry.own = 1 ∧ (s.reg.chain p k).getLast? = some Entry.own := by
+  intro s
+  have inv : DInv s := runN_dinv beh fuel dinv_init ops
+  have hok : ChainOK (s.reg.chain p k) := Registry.chain_ok inv.wf p k
+  exact ⟨inv, chainOK_count_own hok, chainOK_getLast hok⟩
+
+/-- **Conservative.**  When the callees only make requests (the behaviours of the first model), the
+    extended model invokes the same callees with the same results and ends in the same world as
+    `dispatch`: `C15_order` … `C15_isolation` are statements about it too. -/
+theorem C15_nested_conservative (beh : Beh) (fuel : Nat) (s : NState) (p : Nat) (k : Kind) :
+    (dispatchN beh.lift (fuel + 1) s p k).1.d = (dispatch beh s.d p k).1 ∧
+    (dispatchN beh.lift (fuel + 1) s p k).2.map (fun c => (c.entry, c.ret)) =
+      (dispatch beh s.d p k).2.map (fun c => (c.entry, c.ret)) :=
+  dispatchN_lift beh fuel s p k
+
+/-- non-vacuity (the one-shot watchdog): chain `[h1, h2, own]`; on its first invocation `h1` unregisters
+    itself, raises the timer again and returns CONTINUE.  The nested call walks `[h2, own]`; the running
+    call then goes on with `h2` and the own method — `h2` is not skipped although the chain shrank in front
+    of it.  Second scenario (the envelope handler): `h1` registers `h3` and re-delivers; the nested call
+    walks `[h3, h1, h2, own]`, the running one does not run `h1` a second time. -/
+example :
+    let beh : NBeh := fun c n => match c, n with
+      | .handler 1, 0 => ⟨[.req (.unreg .timer 1), .dispatch .timer], .cont⟩
+      | _, _ => ⟨[], .cont⟩
+    let s := (runN beh 4 DState.init [.create 0, .register 0 .timer 2, .register 0 .timer 1]).1
+    (dispatchN beh 4 ⟨s, []⟩ 0 .timer).1.log.reverse =
+      [.call (.h 1) 0, .req (.unreg .timer 1) .ok, .beginD .timer,
+         .call (.h 2) 0, .ret (.h 2) .cont, .call .own 0, .ret .own .cont, .endD .timer, .ret (.h 1) .cont,
+       .call (.h 2) 1, .ret (.h 2) .cont, .call .own 1, .ret .own .cont] := by
+  decide
+
+example :
+    let beh : NBeh := fun c n => match c, n with
+      | .handler 1, 0 => ⟨[.req (.reg .packet 3), .dispatch .packet], .cont⟩
+      | _, _ => ⟨[], .cont⟩
+    let s := (runN beh 4 DState.init [.create 0, .register 0 .packet 2, .register 0 .packet 1]).1
+    ((dispatchN beh 4 ⟨s, []⟩ 0 .packet).2.map (·.entry)) = [.h 1, .h 2, .own] ∧
+    (dispatchN beh 4 ⟨s, []⟩ 0 .packet).1.log.reverse.filterMap (fun | .call e _ => some e | _ => none) =
+      [.h 1, .h 3, .h 1, .h 2, .own, .h 2, .own] := by
+  decide
+
+/-- non-vacuity (dispatcher asked for late): the own method of instance 0 asks for the dispatcher and
+    registers `h1` while its first timer is being delivered unwrapped; from the next timer on the chain
+    `[h1, own]` runs. -/
+example :
+    let beh : NBeh := fun c n => match c, n with
+      | .own 0 .timer, 0 => ⟨[.create, .req (.reg .timer 1)], .cont⟩
+      | _, _ => ⟨[], .cont⟩
+    let r := runN beh 4 DState.init [.dispatch 0 .timer]
+    ((dispatchN beh 4 ⟨DState.init, []⟩ 0 .timer).2.map (·.entry)) = [.own] ∧
+    ((dispatchN beh 4 ⟨r.1, []⟩ 0 .timer).2.map (·.entry)) = [.h 1, .own] := by
   decide
 
 /-! ### the defect that was repaired (finding F15a), for the record -/
